@@ -330,7 +330,7 @@ func runC19(c *Ctx) int {
 		}
 		return 0
 	}
-	nSweep := c.Pick(12, 36)
+	nSweep := c.Pick(12, 16)
 	nSilence := c.Pick(120, 6000)
 	perClass := c.Pick(10, 0)
 	// bases for the sweep: small databases with splits, overflow, nested and inline buckets, persisted freelist
